@@ -55,8 +55,7 @@ Proof.
   - apply Forall_impl. intro va. unfold fields_all. apply Forall_impl. intro f. generalize (f_ty f). induction f0; cbn [fty_all]; auto.
 Qed.
 
-Theorem gen_len_exact_closed d v cs : gen_encode Sc d v = Some cs -> known_len_derived Sc d v = false ->
-  gen_len Sc d v = len (flat cs).
+Theorem gen_len_exact_closed d v cs : gen_encode Sc d v = Some cs -> gen_len Sc d v = len (flat cs).
 Proof.
   apply (gen_len_exact (fun t => ty_ok t = true) (fun t H v cs => len_ty_is_exact t v cs H) Sc d v cs Hok).
   eapply schema_all_weaken; [|exact Hleaf]. intros t (H & _). exact H.
